@@ -386,19 +386,48 @@ namespace fixedmath
   /// \brief Returns the product of two fixed_t point values.
   namespace detail
     {
+    ///\returns false for the only raw value that is neither a finite value nor NaN
     constexpr bool check_multiply_result( fixed_t result )
       { 
-      return (result < as_fixed( fixed_internal(0x7fffffffffff0000ll) )
-        || result > as_fixed( fixed_internal(-0x7fffffffffff0000ll)) );
+      return result >= -quiet_NaN_result();
       }
     
+    ///\brief multiplies raw value by an integral of any type without undefined behaviour on overflow
+    ///\returns false when the exact product does not fit in fixed_internal, \param result is valid only on success
+    template<typename integral_type>
+    [[ gnu::always_inline ]]
+    constexpr bool checked_multiply( fixed_internal lh, integral_type rh, fixed_internal & result ) noexcept
+      {
+#if defined(__GNUC__) || defined(__clang__)
+      //integral promotion keeps the value of every integral type
+      return !__builtin_mul_overflow( lh, +rh, &result );
+#else
+      auto const prh { +rh };
+      if( lh == 0 || prh == 0 )
+        {
+        result = 0;
+        return true;
+        }
+      bool const rh_negative{ cxx20::cmp_less( prh, 0 ) };
+      fixed_internal_unsigned const ul { lh < 0 ? fixed_internal_unsigned(0) - fixed_internal_unsigned(lh) : fixed_internal_unsigned(lh) };
+      fixed_internal_unsigned const ur { rh_negative ? fixed_internal_unsigned(0) - fixed_internal_unsigned(prh) : fixed_internal_unsigned(prh) };
+      bool const negative{ (lh < 0) != rh_negative };
+      fixed_internal_unsigned const limit { (fixed_internal_unsigned(1) << 63) - (negative ? 0u : 1u) };
+      if( ul > limit / ur )
+        return false;
+      fixed_internal_unsigned const product{ ul * ur };
+      result = static_cast<fixed_internal>( negative ? fixed_internal_unsigned(0) - product : product );
+      return true;
+#endif
+      }
+      
     [[ gnu::const, gnu::always_inline ]]
     constexpr fixed_t fixed_multiplyi (fixed_t lh, fixed_t rh) noexcept
       {
-      fixed_t result { fix_carrier_t{ lh.v * rh.v }};
+      fixed_internal result{};
 
-      if( fixed_likely( check_multiply_result(result)) )
-        return fix_carrier_t{ result.v >> 16 };
+      if( fixed_likely( checked_multiply( lh.v, rh.v, result ) ) )
+        return fix_carrier_t{ result >> 16 };
       
       return quiet_NaN_result();
       }
@@ -428,10 +457,10 @@ namespace fixedmath
     [[ gnu::const, gnu::always_inline ]]
     constexpr fixed_t fixed_multiply_scalar (fixed_t lh, integral_type rh) noexcept
       {
-      fixed_t result { fix_carrier_t{ lh.v * promote_type_to_signed(rh) }};
+      fixed_internal result{};
 
-      if( fixed_likely( check_multiply_result(result)) )
-        return result;
+      if( fixed_likely( checked_multiply( lh.v, rh, result ) && check_multiply_result( as_fixed(result) ) ) )
+        return as_fixed(result);
       return quiet_NaN_result();
       }
     template<typename integral_type,
